@@ -549,7 +549,12 @@ func (m *Monitor) onLogOpen(ev *Event) {
 			}
 		}
 		if !ok {
-			m.violate(ev, []string{"C04", "C12", "C14", "C06"}, "log-not-durable", n.ID, "node %s inc %d: reopened log differs from completed operations: %s", n.ID, ev.Inc, why)
+			props := []string{"C04", "C12", "C14", "C06"}
+			if n.base.Index > 0 {
+				// the log had been compacted or replaced by a snapshot installation: what that left on disk is not what the node held
+				props = append(props, "C11")
+			}
+			m.violate(ev, props, "log-not-durable", n.ID, "node %s inc %d: reopened log differs from completed operations: %s", n.ID, ev.Inc, why)
 		}
 	}
 	keepTerm, trueTerm := n.haveLog && ev.Idx == n.base.Index && ev.Term != n.base.Term && n.base.Index != 0, n.base.Term
